@@ -1,5 +1,5 @@
 (* C12 — node groups are isolated from each other.  Theorems only. *)
-From Esc Require Import Examples proofs.ScanTheorems proofs.ScanRun proofs.ScanRunTheorems.
+From Esc Require Import Examples proofs.ScanTheorems proofs.ScanRun proofs.ScanRunTheorems proofs.ScanIsolation.
 
 (* every call made while processing a group names a node carrying the group's label, the group's own cloud group,
    an instance of that cloud group, or its launch template *)
@@ -44,3 +44,23 @@ Print Assumptions c12_containment.
 Theorem c12_run_once : forall s, wf_groups s -> for_groups check_C12_group s (run_journals s) = true.
 Proof. exact run_passes_C12. Qed.
 Print Assumptions c12_run_once.
+
+(* a group's scan reads the API server only through the copies of its own nodes *)
+Theorem c12_api_isolation : forall e api' o mn mx st a all_nodes all_pods,
+  api_agree (e_api e) api' (group_nodes o all_nodes) ->
+  scan_group e o mn mx st a all_nodes all_pods = scan_group (env_with_api e api') o mn mx st a all_nodes all_pods.
+Proof. exact scan_group_api. Qed.
+Print Assumptions c12_api_isolation.
+
+(* two worlds, one RunOnce each: whatever differs outside what group g can see (other groups' nodes, pods, API copies,
+   cloud groups, and the other groups' own configuration, memory and oracles), if g is reached in both runs its journal, the memory it leaves and its outcome are the same *)
+Theorem c12_run_once_isolated : forall s s' g,
+  s_now s = s_now s' -> s_dry s = s_dry s' -> wf_groups s -> wf_groups s' -> In g (s_groups s) -> In g (s_groups s') ->
+  group_nodes (gi_opts g) (s_nodes s) = group_nodes (gi_opts g) (s_nodes s') ->
+  group_pods (gi_opts g) (s_pods s) = group_pods (gi_opts g) (s_pods s') ->
+  api_agree (s_api s) (s_api s') (group_nodes (gi_opts g) (s_nodes s)) ->
+  find_asg (s_cloud s) (o_asg (gi_opts g)) = find_asg (s_cloud s') (o_asg (gi_opts g)) ->
+  forall r r', In (o_name (gi_opts g), r) (fst (run_once s)) -> In (o_name (gi_opts g), r') (fst (run_once s')) ->
+  r_calls r = r_calls r' /\ r_state r = r_state r' /\ r_out r = r_out r'.
+Proof. exact run_once_isolated. Qed.
+Print Assumptions c12_run_once_isolated.
